@@ -80,7 +80,7 @@ impl Check for C10 {
             .boxed()
     }
     fn rule(&self) -> String {
-        "a strong-equivalence task over two random programs, or (1 in 3) an external-equivalence task (program or specification, user guide, 2 in 3 with a proof outline of lemmas and an inductive lemma), 1-20 problems, is first run with --no-proof-search --save-problems; then `verify` runs with a stand-in `vampire` first in PATH that stores its stdin and answers by plan (keyed by the SHA-256 of the problem text): each problem gets one of {Theorem, CounterSatisfiable, ContradictoryAxioms, Timeout, MemoryOut, GaveUp, Error, unknown status word, no status line, non-UTF-8 output, Theorem with non-zero exit, no status with non-zero exit, killed by signal} and a delay of 0-40 ms, with 1-8 (or auto) prover instances; half of the plans have zero or exactly one non-Theorem outcome at a generated position; plus runs with the executable missing and with a prover that exits without reading; oracle: every stored stdin is byte-identical to a saved file and the multisets agree (each problem handed over exactly once), the files saved by both runs agree, problem names are distinct, stdout says Success iff every planned outcome prints SZS status Theorem, otherwise Failure, every named status line matches the plan, exit status 0; non-trivial = at least 2 problems and at least 2 instances with zero or one non-Theorem outcome; distinct by problems + plan + instances".into()
+        "a strong-equivalence task over two random programs, or (1 in 3) an external-equivalence task (program or specification, user guide, 2 in 3 with a proof outline of lemmas and an inductive lemma), 1-20 problems, is first run with --no-proof-search --save-problems; then `verify` runs with a stand-in `vampire` first in PATH that stores its stdin and answers by plan (keyed by the SHA-256 of the problem text): each problem gets one of {Theorem, CounterSatisfiable, ContradictoryAxioms, Timeout, MemoryOut, GaveUp, Error, unknown status word, no status line, non-UTF-8 output, Theorem with non-zero exit, no status with non-zero exit, killed by signal} and a delay of 0-40 ms, with 1-8 (or auto) prover instances; half of the plans have zero or exactly one non-Theorem outcome at a generated position; plus runs with the executable missing and with a prover that exits without reading; oracle: every stored stdin is byte-identical to a saved file and the multisets agree (each problem handed over exactly once), the files saved by both runs agree (also when the second directory already holds longer files of the same names), problem names are distinct, stdout says Success iff every planned outcome prints SZS status Theorem, otherwise Failure, every named status line matches the plan, exit status 0; non-trivial = at least 2 problems and at least 2 instances with zero or one non-Theorem outcome; distinct by problems + plan + instances".into()
     }
     fn run(&self, case: &Case) -> Outcome {
         let Some(bin) = cli::anthem_bin() else {
@@ -195,6 +195,13 @@ impl Check for C10 {
         } else {
             format!("{}:/usr/bin:/bin", bindir.to_string_lossy())
         };
+        // the second output directory is not empty: it holds longer files under the names about to be
+        // written (a directory re-used from an earlier run); they must be replaced, not overwritten in place
+        if c.flag(1, 2) {
+            for (name, content) in &files {
+                std::fs::write(saved2.join(name), format!("{content}% left over from an earlier run\n{}", "%".repeat(content.len() / 2))).unwrap();
+            }
+        }
         let mut second = base_args(&saved2);
         second.push("-n".into());
         second.push(case.instances.to_string());
